@@ -621,5 +621,8 @@ func Run(ctx *corr.Ctx) {
 	for i := range ctx.N(80, 1500) {
 		scripts = append(scripts, g.multicast(i))
 	}
+	for i := range ctx.N(120, 2500) {
+		scripts = append(scripts, g.features(i))
+	}
 	h.process(scripts)
 }
